@@ -83,6 +83,9 @@ def step_req(client, u, kind):
         return client.post("/%s/run-step" % u)
     if kind == "empty":
         return client.post("/%s/run-step" % u, json={"settings": {}})
+    if kind.startswith("multi"):
+        # one request that advances two steps with the same settings object
+        return client.post("/%s/run-steps" % u, json={"numberSteps": 2, "settings": {"sm": {"base": {"constants": {"c": float(kind[5:])}}}}})
     return client.post("/%s/run-step" % u, json={"settings": {"sm": {"base": {"constants": {"c": float(kind)}}}}})
 
 def snapshot(app, client, u):
@@ -149,6 +152,11 @@ def run_c20(case):
         for _ in range(case.get("neighbours", 0)):
             o = start(c, timeout={"hours": 5}); begin(c, o); step_req(c, o, "none" if not case["compress"] else "1.0"); others.append(o)
         k = case["crash_at"]
+        if case.get("resession"):
+            # an earlier, longer session of the same instance (its state file is bigger than the next one)
+            for _ in range(6):
+                step_req(c, u, "1.0" if case["compress"] else "none")
+            c.post("/%s/end-session" % u); begin(c, u)
         for kind in case["kinds"][:k]:
             step_req(c, u, kind)
         del app, c                                      # the process is lost
